@@ -9,7 +9,7 @@ LAT1 = ['señor', 'über', 'café', 'garçon', 'niño', 'été', 'ärger']
 MULTI = ['superman', 'basketball', 'starwars', 'passwordpassword', 'bluehouse', 'hellokitty', 'loveyou', 'testtest', 'summerlove']
 DIGITS = ['1', '12', '123', '1234', '12345', '123456', '007', '00', '42', '69', '2580', '99', '8', '111111', '31337']
 YEARS = ['1999', '2000', '2012', '1984', '2023', '1975', '2001']
-SYMS = ['!', '!!', '@', '#', '$', '.', '_', '-', '!@#', '*', '?', ' ', '  ', '%$', '+', '=']
+SYMS = ['!', '!!', '@', '#', '$', '.', '_', '-', '!@#', '*', '?', ' ', '  ', '%$', '+', '=', '"', '""', "'", ',', ';', '\\', '!"', '`', '|', '~', '[', ']', '(', ')', '{}', '<>', '&', '^', '/', ':']
 WALKS = ['1qaz', 'qwer', '1qaz2wsx', 'zaq1', '!qaz', 'qwert', '1q2w3e4r', 'asdf;', 'йцук1', '2wsx3edc']
 CONTEXT = ['#1', '<3', ';p', ':p', 'Mr.', 'No.1', '*0*', 'i<3', 'Dr.', 'St.', 'No.']
 NONBMP = ['😀', '🔑', '𝒜', '🐱']
@@ -61,7 +61,9 @@ def password(rng, classes=('ascii',), allow_ew=False, max_parts=4):
         elif k == 'walk':
             out.append(rng.choice(WALKS if 'cyr' in classes else [w for w in WALKS if w.isascii()]))
         elif k == 'context':
-            out.append(rng.choice(CONTEXT))
+            c = rng.choice(CONTEXT)
+            # also spellings that are NOT in the detector's list (they are ordinary letters + symbols then)
+            out.append(c if rng.random() < 0.6 else rng.choice([c.upper(), c.lower(), c.swapcase(), c.title()]))
         elif k == 'nonbmp':
             out.append(rng.choice(NONBMP))
         elif k == 'email':
